@@ -342,7 +342,37 @@ def check_c14(idx: Index, tier: str, res: Result) -> None:
                                "agent type appears in the id list (and the count) of every type" % (fi.qual, src(v)[:60])) if shared else
                               "%s rebinds agent_type_map to %s, not to a table of new lists" % (fi.qual, src(v)[:60]),
                               key="COUPDATE/%s/shared-id-list" % fi.qual)
-    res.floor("id-list installations in agent_type_map", nown, 4)      # init, register, reset/configure, delete (some written twice in the pinned tree)
+    res.floor("id-list installations in agent_type_map", nown, 4)
+    # any further table the model fills when an agent is created (an id -> agent index, a per-state list, ...) describes the same
+    # population: wherever the population is replaced (self.agents rebound to a new list) that table is emptied or rebuilt as well
+    mci = idx.cls(MODEL, "Model")
+    crea = idx.func(MODEL, "Model.create_agent")
+    derived: Set[str] = set()
+    for n in ast.walk(crea.node):
+        if isinstance(n, ast.Assign):
+            for t in n.targets:
+                if isinstance(t, ast.Subscript) and isinstance(t.value, ast.Attribute) and dotted(t.value.value) == "self":
+                    derived.add(t.value.attr)
+        if isinstance(n, ast.Call) and isinstance(n.func, ast.Attribute) and n.func.attr in ("append", "add", "setdefault"):
+            b = n.func.value
+            while isinstance(b, ast.Subscript):
+                b = b.value
+            if isinstance(b, ast.Attribute) and dotted(b.value) == "self":
+                derived.add(b.attr)
+    derived -= {"agents", "agent_type_map"}
+    for name, defs in mci.methods.items():
+        fi_ = defs[-1]
+        rebinds = [n for n in walk_no_nested(fi_.node) if isinstance(n, ast.Assign) and any(dotted(t) == "self.agents" for t in n.targets)
+                   and isinstance(n.value, (ast.List, ast.Call))]
+        if not rebinds or name == "__init__":
+            continue
+        for d_ in sorted(derived):
+            reset = [n for n in walk_no_nested(fi_.node) if (isinstance(n, ast.Assign) and any(dotted(t) == "self." + d_ for t in n.targets)) or
+                     (isinstance(n, ast.Call) and isinstance(n.func, ast.Attribute) and n.func.attr == "clear" and dotted(n.func.value) == "self." + d_)]
+            res.check("COUPDATE", "Model.%s resets %s together with the agent list" % (name, d_), bool(reset), fi_.loc(rebinds[0]), fi_.qual, norm_stmt(rebinds[0]),
+                      "Model.%s replaces the agent list but leaves self.%s, which create_agent fills for every agent, as it was: lookups through it "
+                      "still find the agents of the discarded population" % (name, d_), key="COUPDATE/Model.%s/%s-not-reset" % (name, d_))
+      # init, register, reset/configure, delete (some written twice in the pinned tree)
     # create_agent appends agent.id under the factory key
     app = [c for c in iter_calls(create.node) if call_name(c) == "append" and is_row(row_aliases(create.node, "self.agent_type_map"), c.func.value, "self.agent_type_map")]
 
@@ -887,6 +917,12 @@ def check_c12(idx: Index, tier: str, res: Result) -> None:
 
     # ---- LOOPS ---------------------------------------------------------------
     fors = [n for n in walk_no_nested(run.node) if isinstance(n, ast.For)]
+    if len(fors) == 1 and isinstance(fors[0].iter, ast.Call) and call_name(fors[0].iter) in ("timerange", "arange", "linspace"):
+        res.find("LOOPS", "LOOPS/run/steps-from-a-time-grid", run.loc(fors[0]), run.qual, src(fors[0].iter)[:90],
+                 "run() takes its steps from %s: a time grid from start to stop has one point per dt *up to the stop time*, whereas a run executes "
+                 "round(1/dt) steps in every round including the last one (stoptime, stoptime+dt, ...): for dt < 1 the steps after the stop time "
+                 "are never executed and the last-step statistics are never taken" % src(fors[0].iter)[:70])
+        return
     if len(fors) != 2:
         raise AnalysisError("SimultaneousScheduler.run: expected two nested for loops, found %d" % len(fors))
     outer, inner = sorted(fors, key=seq)
@@ -1216,6 +1252,10 @@ def check_c12(idx: Index, tier: str, res: Result) -> None:
                   "the data collector is reset only when %s: a run with data collection switched off keeps the statistics of earlier runs next to its "
                   "final-step entry" % " and ".join("%s is %s" % (src(a), t) for a, t in foreign), key="LAST/run/conditional-collector-reset")
 
+    # ---- every scenario of a run is run once, by its own worker: nothing a worker captures changes under it --------------------
+    from ..util import closure_sweep
+    res.floor("code units examined for late-bound closures", closure_sweep(idx, res, "WORKER", ["BPTK_Py/scenariorunners/hybrid_runner.py", "BPTK_Py/modeling/"]), 20)
+
     # ---- DELEGATE ----------------------------------------------------------------------------
     mrun = idx.func(MODEL, "Model.run")
     for c in [c for c in iter_calls(mrun.node) if call_name(c) == "run" and (call_recv(c) or "").endswith("scheduler")]:
@@ -1438,6 +1478,20 @@ def check_c13(idx: Index, tier: str, res: Result) -> None:
               norm_stmt(tsets[0]) if tsets else "", "agent_statistics[time] is not reset before aggregating: a second collection doubles the numbers",
               key="FOLD/time-cell/reset")
 
+    # --- whose statistics: every scenario of a hybrid manager has a collector of its own, and what is collected at the end of a step is
+    # the population as it is then (the live agent list, not a list taken before the agents acted)
+    from .scenarios import hybrid_fresh_rule
+    hybrid_fresh_rule(idx, res)
+    ncol = 0
+    for fi_ in idx.all_funcs("BPTK_Py/modeling/"):
+        for c_ in iter_calls(fi_.node):
+            if call_name(c_) == "collect_agent_statistics" and len(c_.args) >= 2:
+                ncol += 1
+                live = isinstance(c_.args[1], ast.Attribute) and c_.args[1].attr == "agents"
+                res.check("POP", "%s collects over the live agent list" % fi_.qual, live, fi_.loc(c_), fi_.qual, src(c_)[:90],
+                          "statistics are collected over %s, not over the model's agent list as it is at that moment: agents created during the step are "
+                          "missing, agents deleted during the step are still counted" % src(c_.args[1])[:50], key="POP/%s/collects-over-%s" % (fi_.qual, src(c_.args[1])[:30]))
+    res.floor("collect_agent_statistics call sites", ncol, 1)
     # --- reader/writer keys
     hr = idx.func(HYBRID, "HybridRunner.run_scenario")
     sets = [n for n in ast.walk(hr.node) if isinstance(n, ast.Call) and call_name(n) == "set" and n.args and isinstance(n.args[0], (ast.List, ast.Tuple, ast.Set))]
